@@ -33,7 +33,7 @@ from .. import core
 from .. import itemworld as IW
 from ..impl import mx, close_all, quiet, err_kind
 from ..structworld import val_repr
-from modelx.core.errors import DeletedObjectError
+from modelx.core.errors import DeletedObjectError, FormulaError
 
 KNOWN_DYNBASE = "C07-dynbase-edit-not-propagated"   # FIXED by /repo 482219e: no longer a key that excuses anything
 # (an instance that survived the deletion of the space it hangs under was a second finding on the
@@ -1438,6 +1438,278 @@ def enumerate_edits(ctx, out, stats, motifs=None, per_motif=8):
                 return
 
 
+# ----------------------------------------------------------------------------- failing constructions
+#
+# An ItemSpace request may FAIL: the parameter formula raises, returns something that is neither None nor a dict,
+# returns `refs` that is no mapping (a number, a list, a string, a mapping with a key that is no name), a `base` that
+# is no space - or the construction fails at its very end because a `relative` reference of the base points out of
+# its tree.  "Parametrised, isolated, identity-stable" then means: the failed S[k] leaves NO item (nothing registered
+# under the parent, its base, the children of its base), no earlier handle denotes a half-built instance, the parent
+# stays editable and every other key works.  Histories: requests (failing and not), handles taken, edits of the
+# parent (cells, references, child, the parameter formula, the set of failing keys, the relative reference), repair
+# of the formula.  A second model gets the EDITS only (never a request).  Oracle after every step:
+#   * a request that raised changed nothing (complete description with held values and item keys, before = after);
+#   * registry: under every space as many registered ItemSpaces as items, every dynamic sub of a space is a live
+#     dynamic space of the model; the library's self-check passes;
+#   * a handle is the object under its address and works, or every use raises the deleted-object error;
+#   * every edit has the outcome it has in the edits-only model; at the end every key gives the edits-only values.
+
+FAIL_BODIES = {
+    "refs_int": "return {'refs': 5}",
+    "refs_list": "return {'refs': [('z', 1)]}",
+    "refs_str": "return {'refs': 'z'}",
+    "refs_none_key": "return {'refs': {None: 2}}",
+    "nondict": "return 5",
+    "list": "return [1]",
+    "raises": "return 1 // 0",
+    "base_int": "return {'base': 5}",
+    "base_cells": "return {'base': foo, 'refs': ok_refs}",
+    "relref": "return {'refs': ok_refs}",        # the formula is fine: the failure comes from the step `relref`
+}
+
+
+def fail_pf(tmpl):
+    return "def _f(k):\n    if k in failfor:\n        %s\n    return {'refs': ok_refs}" % FAIL_BODIES[tmpl]
+
+
+FAIL_EDITS = ["new_cells", "del_cells", "set_ref", "foo_formula", "child_cells", "okrefs", "failfor", "relref", "del_relref",
+              "pformula", "sub_cells"]
+
+
+def failed_registry(m):
+    """problems of the registries of dynamic spaces (any model)"""
+    out = []
+    live = {id(d._impl) for _, _, d, _ in IW.dyn_entries(m)}
+    for path, sp in IW.all_static(m):
+        impl = sp._impl
+        if len(impl.named_itemspaces) != len(impl.param_spaces) or \
+                {id(v) for v in impl.named_itemspaces.values()} != {id(v) for v in impl.param_spaces.values()}:
+            out.append("%s has %d ItemSpaces registered by name but %d items" % (
+                path, len(impl.named_itemspaces), len(impl.param_spaces)))
+        ghosts = [d for d in impl._dynamic_subs if id(d) not in live]
+        if ghosts:
+            out.append("%s is the base of %d dynamic space(s) that are not in the model" % (path, len(ghosts)))
+    return out
+
+
+class FailedWorld:
+    """the model of a failed-items history; `apply(step)` -> outcome text"""
+    def __init__(self, h, name):
+        self.m = m = mx.new_model(name)
+        self.O = m.new_space("O")
+        self.O.new_cells("c", formula="def c(): return 1")
+        self.S = S = m.new_space("S", formula=fail_pf(h["fail"]))
+        S.ok_refs = {"z": 10}
+        S.failfor = tuple(h.get("failfor", (1,)))
+        S.new_cells("foo", formula="def foo(t): return k * t + z")
+        if h.get("child", True):
+            Ch = S.new_space("Ch")
+            Ch.new_cells("g", formula="def g(t): return t + k")
+        if h.get("sub"):
+            m.new_space("Sub", bases=S)
+        self.nextra = 0
+        self.handles = []       # (handle, kind, key, name)
+
+    def apply(self, st):
+        from ..impl import err_kind
+        try:
+            with quiet(), IW.limited():
+                return self._apply(st)
+        except FormulaError:
+            return "err Formula " + err_kind(mx.get_error())
+        except Exception as e:      # noqa
+            self.last_exc = e
+            return "err " + err_kind(e)
+
+    def _apply(self, st):
+        S, k = self.S, st[0]
+        self.got_item = False       # the request itself succeeded (what follows it is an evaluation)
+        if k == "item":
+            S[st[1]]
+        elif k == "eval":
+            it = S[st[1]]
+            self.got_item = True
+            return "ok %r" % (it.foo(st[2]),)
+        elif k == "eval_child":
+            it = S[st[1]]
+            self.got_item = True
+            return "ok %r" % (it.Ch.g(st[2]),) if "Ch" in it.spaces else "ok none"
+        elif k == "handle":
+            it = S[st[1]]
+            self.handles.append((it, "space", st[1], None))
+            self.handles.append((it.foo, "cells", st[1], "foo"))
+            if "Ch" in it.spaces:
+                self.handles.append((it.Ch, "space", st[1], "Ch"))
+        elif k == "new_cells":
+            self.nextra += 1
+            S.new_cells("extra%d" % self.nextra, formula="lambda: 0")
+        elif k == "del_cells":
+            if self.nextra:
+                del S.cells["extra%d" % self.nextra]
+                self.nextra -= 1
+        elif k == "set_ref":
+            S.q = st[1]
+        elif k == "foo_formula":
+            S.foo.formula = "def foo(t): return k * t + z + %d" % st[1]
+        elif k == "child_cells":
+            if "Ch" in S.spaces:
+                S.Ch.new_cells("g%d" % st[1], formula="lambda t: t")
+        elif k == "sub_cells":
+            if "Sub" in self.m.spaces:
+                self.m.Sub.new_cells("own%d" % st[1], formula="lambda t: t")
+        elif k == "okrefs":
+            S.ok_refs = {"z": st[1]}
+        elif k == "failfor":
+            S.failfor = tuple(st[1])
+        elif k == "relref":
+            S.set_ref("rr", self.O.c, "relative")
+        elif k == "del_relref":
+            if "rr" in S._own_refs:
+                del S.rr
+        elif k == "pformula":
+            S.formula = fail_pf(st[1])
+        return "ok"
+
+
+FAIL_REQUESTS = ("item", "eval", "eval_child", "handle")
+
+
+def check_failed(h, out, stats):
+    from . import c13
+    from .. import structworld as SW
+    from modelx.core.errors import DeletedObjectError
+    close_all()
+    stats["failed_item_histories"] += 1
+    steps = h["steps"]
+    n0 = len(out.failures)
+    try:
+        with quiet():
+            live, only = FailedWorld(h, "M"), FailedWorld(h, "F")
+        for i, st in enumerate(steps):
+            hist = dict(h, steps=steps[:i + 1])
+            request = st[0] in FAIL_REQUESTS
+            before = SW.describe(live.m, with_items=True) if request else None
+            r = live.apply(st)
+            stats["failed_items:%s:%s" % (st[0], " ".join(r.split(" ")[:2]) if r.startswith("err") else "ok")] += 1
+            if request and r.startswith("err") and not live.got_item:
+                stats["failed_requests"] += 1
+                after = SW.describe(live.m, with_items=True)
+                if after != before:
+                    out.fail("the ItemSpace request %s raised (%s) but changed the model: %s" % (st, r, _desc_diff(before, after)), hist)
+            if not request:
+                r2 = only.apply(st)
+                if r.split(" ")[:2] != r2.split(" ")[:2]:
+                    out.fail("the edit %s of the parametrised space gives %r, but %r in a model to which only the edits "
+                             "were applied (no ItemSpace was ever requested there)" % (st, r, r2), hist)
+            for pb in failed_registry(live.m)[:1]:
+                out.fail("after %s (%s): %s" % (st, r.split(" ")[0], pb), hist)
+            try:
+                with quiet():
+                    mx.core.mxsys._check_sanity()
+            except AssertionError as e:
+                out.fail("the library's own consistency check fails after %s: %s" % (st, core.impl_error_text(e)), hist)
+            keep = []
+            for (hd, kind, key, name) in live.handles:
+                stats["failed_items_handle_checks"] += 1
+                if hd._is_valid():
+                    cur = live.S._impl.param_spaces.get((key,))
+                    cur = cur.interface if cur is not None else None
+                    if cur is not None and name == "foo":
+                        cur = cur.cells["foo"] if "foo" in cur.cells else None
+                    elif cur is not None and name == "Ch":
+                        cur = cur.spaces["Ch"] if "Ch" in cur.spaces else None
+                    if cur is not hd:
+                        out.fail("a handle to S[%s]%s is alive after %s but is not the object found under its address" % (
+                            key, "." + name if name else "", st), hist)
+                    else:
+                        keep.append((hd, kind, key, name))
+                    continue
+                for what, use in c13.uses(hd, kind):
+                    if what in ("new_cells", "bases", "set"):
+                        continue
+                    try:
+                        with quiet():
+                            use()
+                        out.fail("a dead handle to S[%s]%s still acts (%s succeeded) after %s" % (
+                            key, "." + name if name else "", what, st), hist)
+                        break
+                    except DeletedObjectError:
+                        pass
+                    except Exception as e:      # noqa
+                        out.fail("a dead handle to S[%s]%s raises %s instead of the deleted-object error on %s" % (
+                            key, "." + name if name else "", type(e).__name__, what), hist)
+                        break
+            live.handles = keep
+            if len(out.failures) - n0 >= 3:
+                return False
+        # the end: every key, in both models
+        for key in (1, 2, 3):
+            for st in (["eval", key, 2], ["eval_child", key, 1]):
+                a, b = live.apply(st), only.apply(st)
+                if a != b and not (a.startswith("err") and b.startswith("err") and a.split(" ")[:2] == b.split(" ")[:2]):
+                    out.fail("at the end %s gives %r, but %r in a model to which only the edits were applied" % (st, a, b),
+                             dict(h, steps=steps + [st]))
+                    return False
+    finally:
+        close_all()
+    return len(out.failures) == n0
+
+
+def _desc_diff(a, b):
+    out = []
+    for p in sorted(set(a["spaces"]) | set(b["spaces"])):
+        sa, sb = a["spaces"].get(p), b["spaces"].get(p)
+        if sa != sb:
+            out.append("%s: %s" % (p, ", ".join(k for k in (sa or sb) if (sa or {}).get(k) != (sb or {}).get(k))))
+    return "; ".join(out)[:300] or "model-level references"
+
+
+def gen_failed(rng):
+    tmpl = rng.choice(sorted(FAIL_BODIES))
+    steps = []
+    if rng.random() < 0.6:
+        steps += [["handle", rng.choice([1, 2])], ["eval", 2, 1]]
+    if tmpl == "relref":
+        steps.append(["relref"])
+    for _ in range(rng.randint(3, 8)):
+        r = rng.random()
+        if r < 0.45:
+            k = rng.choice(["item", "item", "eval", "eval_child", "handle"])
+            key = rng.choice([1, 1, 2, 3])
+            steps.append([k, key] if k in ("item", "handle") else [k, key, rng.randint(0, 2)])
+        else:
+            k = rng.choice(FAIL_EDITS)
+            if k in ("relref", "del_relref") and tmpl != "relref" and rng.random() < 0.7:
+                k = "new_cells"
+            steps.append([k, rng.randint(2, 9)] if k in ("set_ref", "foo_formula", "child_cells", "okrefs", "sub_cells") else
+                         [k, rng.choice([[], [1], [1, 2], [2]])] if k == "failfor" else
+                         [k, rng.choice(sorted(FAIL_BODIES))] if k == "pformula" else [k])
+    return {"scenario": "failed-items", "fail": tmpl, "failfor": rng.choice([[1], [1], [1, 3], []]),
+            "child": rng.random() < 0.8, "sub": rng.random() < 0.3, "steps": steps}
+
+
+def failed_items(ctx, out, stats):
+    hists = []
+    for tmpl in sorted(FAIL_BODIES):
+        pre = [["relref"]] if tmpl == "relref" else []
+        post = [["del_relref"]] if tmpl == "relref" else []
+        # (a) some keys fail from the start: requests, then edits of the parent, other keys, repair
+        hists.append({"scenario": "failed-items", "fail": tmpl, "failfor": [1], "child": True, "sub": tmpl in ("refs_int", "relref"),
+                      "steps": [["eval", 2, 3], ["handle", 2]] + pre + [["item", 1], ["item", 1], ["eval", 1, 1], ["new_cells"],
+                                ["set_ref", 3], ["eval", 3, 1], ["child_cells", 1], ["sub_cells", 1], ["foo_formula", 2]] + post
+                      + [["failfor", []], ["eval", 1, 2]]})
+        # (b) an item that exists, with handles; then the formula starts to fail for its key
+        hists.append({"scenario": "failed-items", "fail": tmpl, "failfor": [], "child": True, "sub": False,
+                      "steps": [["handle", 1], ["eval", 1, 2]] + pre + [["failfor", [1]], ["item", 1], ["okrefs", 1], ["item", 1],
+                                ["new_cells"], ["del_cells"]] + post + [["failfor", []], ["eval", 1, 2], ["eval_child", 1, 1]]})
+    hists += [gen_failed(ctx.rng("failed-items", i)) for i in range(ctx.n(40, 800))]
+    for h in hists:
+        check_failed(h, out, stats)
+        if len([f for f in out.failures if not f.get("key")]) >= 4:
+            break
+    return len(hists)
+
+
 def load_corpus():
     d = os.path.join(core.CORPUS_DIR, "C07")
     out = []
@@ -1472,16 +1744,23 @@ def run(ctx, out):
     nr = ref_stream(ctx, out, stats)
     stats["bind_cases"] = nb
     stats["ref_scenarios"] = nr
+    nf = failed_items(ctx, out, stats)
     out.assumptions.append(
         "instance_value (a cells in an instance evaluates as in the base with the parameters bound) is not a Lean "
         "theorem: it is checked by the implementation-only oracle against a plain replica on every history; the Lean "
         "theorems cover binding, instance identity/handles under all histories, what edits leave behind, and the "
         "order of the reference chain")
-    out.coverage.update({"evaluations": len(cases) + stats["enumerated_scenarios"], "programs": len(seen),
+    out.coverage.update({"evaluations": len(cases) + stats["enumerated_scenarios"] + nf, "programs": len(seen),
                          "distinct_nontrivial": nontrivial,
                          "rule": RULE + "; plus, after each of the %d motif programs with two instances of every parametrised "
                                         "space created and evaluated, single definition edits at every place a definition "
-                                        "lives (quick: all deletions + a sample; thorough: all), accesses repeated" % len(MOTIFS),
+                                        "lives (quick: all deletions + a sample; thorough: all), accesses repeated" % len(MOTIFS)
+                                 + "; plus %d histories of FAILING constructions (%d kinds: the parameter formula raises, returns a "
+                                   "non-dict, refs that are no mapping / have a key that is no name, a base that is no space, a "
+                                   "relative reference of the base out of its tree) for some keys, with handles, edits of the "
+                                   "parent / child / sub space / formula, repair: a failed request changes nothing, registries "
+                                   "of dynamic spaces consistent, handles dead or the object under their address, every edit "
+                                   "and the final values as in an edits-only model" % (nf, len(FAIL_BODIES)),
                          "samples": samples, "input_distribution": dict(stats),
                          "corpus_cases": len(cases) - n, "traces_validated_against_impl": len(cases)})
 
@@ -1496,7 +1775,9 @@ def replay(ctx, payload, out):
         h = corr[-1]["detail"].get("history") if corr else None
     if not h:
         return
-    if "ops" in h:
+    if h.get("scenario") == "failed-items":
+        check_failed(h, out, collections.Counter())
+    elif "ops" in h:
         ops = json.loads(json.dumps(h["ops"]))
         run_one(ops, out, collections.Counter(), wide=not corr_eligible(ops))
     elif "bind" in h:
